@@ -440,10 +440,27 @@ def entry_run(entry, n, budget, chooser, scorer_obj=None):
     v = [[[0.5 + 0.01 * t + 0.02 * e for e in range(sz)] for t in range(n)] for p, sz in enumerate(sizes)]
     D = [[0.0 if a == b else 1.0 + 0.1 * abs(a - b) for b in range(n)] for a in range(n)]
     G.get_combination_at_sorted_index = wrapper
+    # second observation point (see scoring_run): every kernel call made by the entry point gets a recording distance matrix
+    kernel = G.dbal_fast_gauss_scoring_vectorized
+    per_call = []
+
+    def kernel_wrapper(*a, **k):
+        a = list(a)
+        if "distance_matrix" in k:
+            dm = np.asarray(k["distance_matrix"], dtype=float).view(_RecordingMatrix)
+            k["distance_matrix"] = dm
+        else:
+            dm = np.asarray(a[2], dtype=float).view(_RecordingMatrix)
+            a[2] = dm
+        dm.gathers = []
+        per_call.append(dm)
+        return kernel(*a, **k)
+
+    G.dbal_fast_gauss_scoring_vectorized = kernel_wrapper
     try:
         rng = ScriptedGenerator(chooser)
         try:
-            if entry == "scorer":
+            if entry in ("scorer", "scorer-chunked"):
                 _screen, plates, keys = c05.screen_for(sizes)
                 from batchie.core import ThetaHolder
                 holder = ThetaHolder(n_thetas=n)
@@ -453,7 +470,8 @@ def entry_run(entry, n, budget, chooser, scorer_obj=None):
                         for e, k in enumerate(keys[p_]):
                             mt[k], vt[k] = m[p_][t][e], v[p_][t][e]
                     holder.add_theta(c05.TableTheta(mt, vt))
-                (scorer_obj if scorer_obj is not None else G.GaussianDBALScorer(max_triples=budget)).score(
+                (scorer_obj if scorer_obj is not None else (G.GaussianDBALScorer(max_triples=budget, max_chunk=1) if entry == "scorer-chunked"
+                                                            else G.GaussianDBALScorer(max_triples=budget))).score(
                     plates={int(plates[p_].plate_id): plates[p_] for p_ in range(len(sizes))},
                     distance_matrix=c05.make_distance_matrix(D), samples=holder, rng=rng, progress_bar=False)
             elif entry == "hetero":
@@ -465,6 +483,12 @@ def entry_run(entry, n, budget, chooser, scorer_obj=None):
             return rec, exc, None
     finally:
         G.get_combination_at_sorted_index = orig
+        G.dbal_fast_gauss_scoring_vectorized = kernel
+    if not rec:
+        for dm in per_call:
+            alt = _triples_from_gathers(dm.gathers, n)
+            if alt is not None:
+                rec = rec + alt
     return rec, None, None
 
 
@@ -627,7 +651,7 @@ def plan(tier, seed):
     items.append({"kind": "scorer-history", "histories": [[5000, [4, 6]], [5000, [6, 4, 7]], [20, [4, 6, 5]], [10, [5, 4, 5]], [5000, [3, 12]]]})
     for c in range(0, len(CONSUMED), 3):
         items.append({"kind": "consumed", "cases": CONSUMED[c:c + 3]})
-    for entry in ("scorer", "hetero", "homo"):
+    for entry in ("scorer", "scorer-chunked", "hetero", "homo"):  # scorer-chunked: max_chunk=1, one kernel call per plate
         for n, budgets in ((4, (1, 3, 4, 5)), (5, (7, 10, 11)), (34, (5984, 6000, 5990 if tier == "thorough" else 6100))):
             items.append({"kind": "entry-budget", "entry": entry, "n": n, "budgets": list(budgets)})
     ft = FULL_TREE_BUDGETS[tier]
